@@ -551,21 +551,39 @@ def _sort_key(c):
 def run(ctx):
     from cuqiverif.core import MachineryError
     from cuqiverif import tlc as _tlc
+    import concurrent.futures, os
     S = _solver_mod()
-    res = ctx.tlc("Solvers", cfg="Solvers.%s.cfg" % ctx.tier, workers=16, timeout=1700,
-                  require_actions=["Start", "Iterate"] if ctx.tier == "thorough" else None)
-    ctx.model_must_hold(res, "Solvers")
-    cases = sorted(res.cases, key=_sort_key)
-    _tlc.cleanup(res)
-    kinds = set(c["kind"] for c in cases)
-    if kinds != {"cg", "prox", "kkt", "lm", "wrap"}:
-        raise MachineryError("Solvers emitted kinds %r" % sorted(kinds))
-    # named deviations: the invariants that decide the property must fail when the deviation is switched on
-    for dev, inv in (("PcglsIgnoresShift", "NormalEquations"), ("MaximizeDropsSign", "WrapRelation")):
-        r2 = ctx.tlc("Solvers", cfg="Solvers.dev_%s.cfg" % dev, workers=4, timeout=600, expect_violation=True)
-        if r2.ok or r2.violated != inv:
-            raise MachineryError("deviation %s does not violate %s on the model (violated=%r): vacuous invariant" % (dev, inv, r2.violated))
-        _tlc.cleanup(r2)
+    devs = (("PcglsIgnoresShift", "NormalEquations"), ("MaximizeDropsSign", "WrapRelation"))
+    wd = lambda label: os.path.join(_tlc.WORK, "Solvers-c16-%s-%d" % (label, os.getpid()))
+    # the (small) deviation runs are started together with the main run: three JVM starts in sequence cost minutes on a loaded machine
+    pool = concurrent.futures.ThreadPoolExecutor(max_workers=2)
+    fut = {dev: pool.submit(ctx.tlc, "Solvers", cfg="Solvers.dev_%s.cfg" % dev, workers=2, timeout=2400, expect_violation=True,
+                            workdir=wd(dev)) for dev, _ in devs}
+    try:
+        res = ctx.tlc("Solvers", cfg="Solvers.%s.cfg" % ctx.tier, workers=16, timeout=3600, workdir=wd("main"),
+                      require_actions=["Start", "Iterate"] if ctx.tier == "thorough" else None)
+    except BaseException:
+        concurrent.futures.wait(list(fut.values()))
+        for label in ["main"] + [d for d, _ in devs]:                       # nothing of a failed run stays under .work
+            _tlc.cleanup(wd(label))
+        raise
+    finally:
+        concurrent.futures.wait(list(fut.values()))          # no JVM of this run is left behind when the main run fails
+        pool.shutdown()
+    try:
+        ctx.model_must_hold(res, "Solvers")
+        cases = sorted(res.cases, key=_sort_key)
+        kinds = set(c["kind"] for c in cases)
+        if kinds != {"cg", "prox", "kkt", "lm", "wrap"}:
+            raise MachineryError("Solvers emitted kinds %r" % sorted(kinds))
+        # named deviations: the invariants that decide the property must fail when the deviation is switched on
+        for dev, inv in devs:
+            r2 = fut[dev].result()
+            if r2.ok or r2.violated != inv:
+                raise MachineryError("deviation %s does not violate %s on the model (violated=%r): vacuous invariant" % (dev, inv, r2.violated))
+    finally:
+        for label in ["main"] + [d for d, _ in devs]:
+            _tlc.cleanup(wd(label))
     counts = _dispatch(ctx, S, cases, ctx.tier == "thorough")
     ctx.observe("cases_by_kind", counts)
     for k in ("cg", "prox", "kkt", "lm", "wrap"):
@@ -593,7 +611,7 @@ def replay(ctx, case):
         sib = None
         if case["solver"] == "pcgls" and case["shift"] != 0:
             # re-emit the shift-0 sibling from TLC to stay spec-driven
-            res = ctx.tlc("Solvers", cfg="Solvers.%s.cfg" % ("quick" if case["n"] <= 2 else "thorough"), workers=16, timeout=1700)
+            res = ctx.tlc("Solvers", cfg="Solvers.%s.cfg" % ("quick" if case["n"] <= 2 else "thorough"), workers=16, timeout=3600)
             for c in res.cases:
                 if c["kind"] == "cg" and c["shift"] == 0 and _cg_key(c) == _cg_key(case):
                     sib = c
